@@ -298,12 +298,13 @@ class Engine:
             target = rec.obj if rec.obj is not None else None
             if target is None:
                 return "noop"
-            before = [list(st["next"]) for st in rec.stages], [st["completed"] for st in rec.stages]
+            mine = [st for st in rec.stages if not st.get("post")]
+            before = [list(st["next"]) for st in mine], [st["completed"] for st in mine]
             try:
                 target.__exit__(None, None, None)
             except Exception:
                 pass
-            after = [list(st["next"]) for st in rec.stages], [st["completed"] for st in rec.stages]
+            after = [list(st["next"]) for st in mine], [st["completed"] for st in mine]
             if before != after:
                 self.violate("C17.completed_once", {"probe": rec.id, "second deactivation changed the stages": [before, after]})
             return "again"
@@ -334,9 +335,12 @@ class Engine:
         computed from precisely the delivered events."""
         rec.expect_exit_error = False
         for st in rec.stages:
-            st["final"] = [list(st["next"]), st["completed"], list(st["errors"])]
+            if not st.get("post"):
+                st["final"] = [list(st["next"]), st["completed"], list(st["errors"])]
         relaxed = any(st.get("raised") for st in rec.stages)
         for st in rec.stages:
+            if st.get("post"):
+                continue
             if relaxed:
                 # after an injected subscriber failure this probe's deliveries are
                 # unspecified (the failure aborts _push); completion at most once still holds
@@ -763,13 +767,14 @@ class Engine:
         rec = self.probes.get(op["id"])
         if rec is None or rec.dead or rec.obj is None:
             return "noop"
-        if rec.entered and not rec.active:
-            return "noop"  # attaching to a finished probe is outside the statement
+        post = rec.entered and not rec.active  # attached after deactivation: must stay silent for ever
         st = {
             "kind": op["kind"], "cap": op["cap"], "next": [], "completed": 0,
-            "errors": [], "since": len(rec.exp_all), "raises": op.get("raises"),
-            "n_seen": 0,
+            "errors": [], "since": len(rec.exp_all), "raises": None if post else op.get("raises"),
+            "n_seen": 0, "post": post,
         }
+        if post:
+            self.sim.reach("stage_attached_after_deactivation")
 
         def on_next(v, st=st):
             st["n_seen"] += 1
@@ -1070,6 +1075,14 @@ class Engine:
             if rec.active:
                 continue
             for st in rec.stages:
+                # a stage attached after deactivation may be *completed* by a later, redundant
+                # deactivate() (an empty reduction then publishes its neutral value or errors);
+                # what it must never get is data caused by calls
+                if st.get("post") and st["next"] and not (st["kind"] == "count" and st["next"] == [0]):
+                    self.violate(
+                        "C17.silent_outside",
+                        {"probe": rec.id, "stage": st["kind"], "stage attached after deactivation received": st["next"]},
+                    )
                 if "final" in st and st["final"] != [st["next"], st["completed"], st["errors"]]:
                     self.violate(
                         "C17.silent_outside",
